@@ -1367,6 +1367,12 @@ func lockWindow(p *Prog, list []ast.Stmt, lockText string) (lo, hi int) {
 			if t == lockText+".Lock()" && lo < 0 {
 				lo = i
 			}
+			// a method of the same receiver that returns with this mutex held
+			if c, ok := es.X.(*ast.CallExpr); ok && lo < 0 {
+				if m, ok := p.lockWrappers()[p.calleeOf(c)]; ok && strings.HasSuffix(lockText, "."+m[strings.Index(m, ".")+1:]) {
+					lo = i
+				}
+			}
 			if t == lockText+".Unlock()" {
 				hi = i
 			}
@@ -1404,7 +1410,14 @@ func ruleCtxOwnership(p *Prog, r *Out) {
 			l0, isL := list[0].(*ast.ExprStmt)
 			ifs, isIf := list[1].(*ast.IfStmt)
 			res := retResults(list[2])
-			if isL && isIf && squash(p.text(l0.X)) == "ctx.lck.Lock()" && len(res) == 1 && p.text(res[0]) == "true" && refuses(ifs) {
+			takes := false
+			if isL {
+				takes = squash(p.text(l0.X)) == "ctx.lck.Lock()"
+				if c, ok := l0.X.(*ast.CallExpr); ok && p.lockWrappers()[p.calleeOf(c)] == "Ctx.lck" {
+					takes = true
+				}
+			}
+			if isL && isIf && takes && len(res) == 1 && p.text(res[0]) == "true" && refuses(ifs) {
 				atoms, pure := pureJunction(ifs.Cond, false)
 				want := map[string]bool{}
 				for _, a := range spec.atoms {
